@@ -13,6 +13,7 @@ from vlib.jsbridge import Node
 from vlib.lib import call, mod
 
 PROPERTY = 'C18'
+AMBIENT_PASS = True        # the same search once more under unusual ambient settings (vlib.run.AMBIENT_SETTINGS)
 RULE = ('the same input grids as C06 and C11, sent to a persistent node process that loads js/src/*.js from the working tree: '
         'round_up_str_num/roundUpStrNum (digit strings x prec), format_seconds_as_time/formatSecondsAsTime (boundary and '
         'residue durations x prec incl. bad precisions), parse_hms/parseHms (structured texts, well-formed or junk on which '
@@ -23,6 +24,7 @@ RULE = ('the same input grids as C06 and C11, sent to a persistent node process 
         'equal after the JSON round trip) or both refuse; a JS NaN/undefined counts as a value; plus structural equality of the '
         'duplicated tables; non-trivial = an input on a non-default path (rounding carry, hand timing, a ":"-field text, a '
         'normalising group, a beyond-table or clamped score); distinct inputs')
+RULE = RULE + '; fractional ages at the first, a middle and the last age class; spelling variants in chains of two or three with tab / no-break / em space'
 ASSUMPTIONS = ['shared domain: decimal-digit numeric strings both languages define (no Python-only literals such as 1_0, inf, Unicode digits); '
                'm:ss texts only for running events',
                'functions outside the listed pairs (highjump.js, uka_agegroups.js, checkPerformanceForDiscipline) are not compared']
